@@ -127,7 +127,7 @@ ToStep(ev) ==
        dig |-> IF HasXAny(ev, "dig") THEN ev.obs.x.dig ELSE "",
        peers |-> IF HasXAny(ev, "dig") THEN ev.obs.x.peers ELSE <<>>,
        hasParse |-> HasX(ev, "parse"),
-       parse |-> IF HasX(ev, "parse") THEN [ok |-> ev.obs.x.parse.ok, pure |-> ev.obs.x.parse.pure] ELSE [ok |-> FALSE, pure |-> TRUE],
+       parse |-> IF HasX(ev, "parse") THEN [ok |-> ev.obs.x.parse.ok, pure |-> ev.obs.x.parse.pure, hist |-> ev.obs.x.parse.hist] ELSE [ok |-> FALSE, pure |-> TRUE, hist |-> TRUE],
        rt |-> IF HasX(ev, "rt") THEN [built |-> ev.obs.x.rt.built, parseOk |-> ev.obs.x.rt.parseOk, equal |-> ev.obs.x.rt.equal,
                                       remarshalEqual |-> ev.obs.x.rt.remarshalEqual, sameMemo |-> ev.obs.x.rt.sameMemo]
               ELSE [built |-> FALSE, parseOk |-> FALSE, equal |-> FALSE, remarshalEqual |-> FALSE, sameMemo |-> FALSE],
